@@ -87,3 +87,77 @@ Example orig_write_last_fits :
   (length (dlog (fst (fst (v1_write true m u 8 7 16 256 d)))) = 2)%nat /\
   snd (v1_write true m (mkv1 0 1 16 4 4 5 5 None None) 9 7 16 256 d) = RErr (MSpi EOob).
 Proof. vm_compute. split; reflexivity. Qed.
+
+(* ---------- the same statement for the single-erasure updater of flash-algo-new (orig = false), whose fragment writes go through
+   the Slot layer (write_segment + mark_segment_written): with the geometry start_update accepts (both counts at most
+   MAX_SEGMENTS, both tables of fragments fit behind the data region offset) every program of a fragment write lies inside the
+   slot the index belongs to.  This is C08 for the second back-end at the level of one write. ---------- *)
+Lemma dget_log m fw par bsz maxl moff c i : dlog (f_dev (fst (m_dget (flash_sto m fw par bsz maxl moff) c i))) = dlog (f_dev c).
+Proof.
+  cbn [flash_sto m_dget].
+  destruct (MAX_SEGMENTS <? N.of_nat i); [reflexivity|].
+  pose proof (seg_size_log m fw false c) as RL. destruct (seg_size m fw false c) as [s1 [z|]]; cbn [fst] in *; [|exact RL].
+  destruct (z =? 0); [exact RL|]. destruct (m_size m <? _); [exact RL|].
+  match goal with |- context [d_read ?dd ?aa ?ll] => pose proof (d_read_log dd aa ll) as R; destruct (d_read dd aa ll) as [d2 r] end.
+  cbn [fst f_dev] in *. rewrite (proj1 R). exact RL.
+Qed.
+
+Lemma slot_put_in_slot m slot cache plen i0 payload d nseg :
+  nseg <= MAX_SEGMENTS -> nseg * plen <= m_size m - DATA_REGION_OFFSET -> DATA_REGION_OFFSET <= m_size m -> i0 < nseg ->
+  exists news, dlog (fst (fst (slot_put m slot cache plen (N.to_nat i0) payload d))) = news ++ dlog d /\ (length news <= 2)%nat /\
+               Forall (prog_in m slot) news.
+Proof.
+  intros Hn Hfit Hsz Hi. unfold slot_put.
+  pose proof (data_put_confined m slot slot plen 0 0 (mkf d cache) (N.to_nat i0) payload nseg Hn Hfit Hsz ltac:(rewrite N2Nat.id; exact Hi)) as H.
+  cbv zeta in H. destruct (m_dput (flash_sto m slot slot plen 0 0) (mkf d cache) (N.to_nat i0) payload) as [s ok]. cbn [fst f_dev] in *.
+  destruct H as [H|[(a & v & z & H & B1 & B2)|(a & v & z & z' & H & B1 & B2 & B3)]].
+  - exists []. repeat split; auto.
+  - eexists [_]. split; [exact H|]. split; [cbn; lia|]. apply Forall_cons; [|apply Forall_nil]. cbn. unfold DATA_REGION_OFFSET in *. lia.
+  - eexists [_; _]. split; [exact H|]. split; [cbn; lia|]. apply Forall_cons; [|apply Forall_cons; [|apply Forall_nil]]; cbn;
+      unfold DATA_REGION_OFFSET, WRITTEN_OFFSET in *; lia.
+Qed.
+
+Theorem naive_write_in_slot m u idx1 payload plen rlen d :
+  v_tf u <= MAX_SEGMENTS -> v_tp u <= MAX_SEGMENTS -> DATA_REGION_OFFSET <= m_size m ->
+  v_tf u * plen <= m_size m - DATA_REGION_OFFSET -> v_tp u * plen <= m_size m - DATA_REGION_OFFSET ->
+  let '(d', _, _) := v1_write false m u idx1 payload plen rlen d in
+  exists news, dlog d' = news ++ dlog d /\ (length news <= 2)%nat /\ Forall (prog_in m (frag_slot u idx1)) news.
+Proof.
+  intros Hf Hp Hsz Gf Gp. unfold v1_write, frag_slot.
+  destruct (N.eqb_spec idx1 0) as [|Hnz]; [exists []; repeat split; auto|].
+  destruct (N.leb_spec idx1 (v_tf u)) as [Hle|Hgt].
+  - cbv zeta.
+    destruct ((MAX_SEGMENTS <? idx1 - 1) || (m_size m <? WRITTEN_OFFSET + (idx1 - 1))); [exists []; repeat split; auto|].
+    set (i0 := idx1 - 1) in *. set (slot := v_fw u) in *.
+    match goal with |- context [d_read ?dd ?aa ?ll] => pose proof (d_read_log dd aa ll) as [RL _]; destruct (d_read dd aa ll) as [d1 [st|]] end;
+      cbn [fst] in RL; [|exists []; repeat split; auto].
+    destruct (st =? DATA_WRITTEN).
+    { unfold slot_get. pose proof (dget_log m slot slot rlen 0 0 (mkf d1 (v_cf u)) (N.to_nat i0)) as G.
+      destruct (m_dget _ _ _) as [s2 [v|]]; cbn [fst f_dev] in *; [destruct (_ =? payload)|]; exists []; repeat split; auto; cbn; congruence. }
+    destruct (negb (st =? DATA_NOT_WRITTEN)); [exists []; repeat split; auto|].
+    destruct (slot_put_in_slot m slot (v_cf u) plen i0 payload d1 (v_tf u) Hf Gf Hsz ltac:(subst i0; lia)) as (news & E & L & F).
+    destruct (slot_put m slot (v_cf u) plen (N.to_nat i0) payload d1) as [[d2 c2] [|]]; cbn [fst] in E;
+      [destruct (_ || _)|]; exists news; (split; [rewrite E, RL; reflexivity|]); split; assumption.
+  - destruct (N.leb_spec idx1 (v_tf u + v_tp u)) as [Hle2|]; [|exists []; repeat split; auto].
+    cbv zeta.
+    destruct ((MAX_SEGMENTS <? idx1 - 1 - v_tf u) || (m_size m <? WRITTEN_OFFSET + (idx1 - 1 - v_tf u))); [exists []; repeat split; auto|].
+    set (i0 := idx1 - 1 - v_tf u) in *. set (slot := v_par u) in *.
+    match goal with |- context [d_read ?dd ?aa ?ll] => pose proof (d_read_log dd aa ll) as [RL _]; destruct (d_read dd aa ll) as [d1 [st|]] end;
+      cbn [fst] in RL; [|exists []; repeat split; auto].
+    destruct (st =? DATA_WRITTEN).
+    { unfold slot_get. pose proof (dget_log m slot slot rlen 0 0 (mkf d1 (v_cp u)) (N.to_nat i0)) as G.
+      destruct (m_dget _ _ _) as [s2 [v|]]; cbn [fst f_dev] in *; [destruct (_ =? payload)|]; exists []; repeat split; auto; cbn; congruence. }
+    destruct (negb (st =? DATA_NOT_WRITTEN)); [exists []; repeat split; auto|].
+    destruct (slot_put_in_slot m slot (v_cp u) plen i0 payload d1 (v_tp u) Hp Gp Hsz ltac:(subst i0; lia)) as (news & E & L & F).
+    destruct (slot_put m slot (v_cp u) plen (N.to_nat i0) payload d1) as [[d2 c2] [|]]; cbn [fst] in E;
+      [destruct (_ || _)|]; exists news; (split; [rewrite E, RL; reflexivity|]); split; assumption.
+Qed.
+
+(* the geometry premises are those of an accepted session: four 16-byte fragments and four coded fragments in slots with room
+   for exactly four; the write of the last parity fragment is then performed (two programs) *)
+Example naive_write_premises_met :
+  let m := mkmgr 4 (DATA_REGION_OFFSET + 64) in
+  let u := mkv1 0 1 16 4 4 4 4 None None in
+  v_tf u <= MAX_SEGMENTS /\ v_tp u <= MAX_SEGMENTS /\ DATA_REGION_OFFSET <= m_size m /\
+  v_tf u * 16 <= m_size m - DATA_REGION_OFFSET /\ v_tp u * 16 <= m_size m - DATA_REGION_OFFSET.
+Proof. vm_compute. repeat split; discriminate. Qed.
